@@ -102,11 +102,14 @@ class World:
         self.server = await IMAPUserServer.new(self.maildir)
         return self
 
-    async def restart(self):
+    async def restart(self, find_folders: bool = False):
         from asimap.user_server import IMAPUserServer
 
         await self.server.shutdown()
         self.server = await IMAPUserServer.new(self.maildir)
+        # the real start-up (IMAPUserServer.run) looks for folders it has no row for before it serves any client
+        if find_folders:
+            await self.server.find_all_folders()
 
     def session(self, name: str) -> Session:
         return Session(self.server, name)
